@@ -362,7 +362,7 @@ class FSTView:
     def _len_field(self) -> int:
         """Length of full base `FST` field, irrespective of view `start` and `stop`."""
 
-        return len(getattr(self.base.a, self.field))
+        return len(getattr(self.base.a, self.field, ()))  # field may not exist anymore if an operation through this view normalized base to a different node type (e.g. single-value BoolOp to the value)
 
     def _getitem(self, idx: int) -> FSTView | AST | str | None:
         """Return a single item from field (which may not be a contiguous list). `idx` is the real index already
@@ -392,6 +392,8 @@ class FSTView:
             stop = len_field
         elif stop > len_field:
             stop = self._stop = len_field
+        elif stop < 0:  # can happen if base was normalized to a different node type and field is gone
+            stop = self._stop = 0
 
         if (start := self._start) > stop:
             start = self._start = stop
@@ -1398,7 +1400,10 @@ class FSTView_Compare(FSTView):
     """View for `Compare` combined `left + comparators` virtual field `_all`. @private"""
 
     def _len_field(self) -> int:
-        return 1 + len(self.base.a.comparators)
+        if (comparators := getattr(self.base.a, 'comparators', None)) is None:  # an operation through this view normalized base Compare to its single remaining operand, no more field
+            return 0
+
+        return 1 + len(comparators)
 
     def _getitem(self, idx: int) -> FSTView | AST | str | None:
         return self.base.a.comparators[idx - 1] if idx else self.base.a.left
